@@ -299,3 +299,95 @@ Fixpoint ref_main (n fuel : nat) (r : rst) : option rst :=
   end.
 
 End RefEd.
+
+(* ------------------------------------------------------------------------------------------ *)
+(* "after every command": ex_exec / ref_exec instrumented with the list of states after each command of the line
+   (the commands a register run by @ executes are inside that command's step), ex_main / ref_main with the states after
+   each command of each line.  ex_exec_tr is ex_exec with a trace, see ExRefine.exec_tr_last. *)
+Section Traces.
+Variable rvalid : bytes -> bool.
+Variable rfind : bytes -> bytes -> bool -> option (nat * nat).
+Variable filter : bytes -> bytes -> option bytes.
+Variable readfile : bytes -> option bytes.
+Variable curpath : bytes.
+
+Fixpoint ex_exec_tr (fuel : nat) (ret : Z) (ln : bytes) (s : st) : list st :=
+  match fuel with
+  | O => [flag s F_OOF]
+  | S f =>
+    match ln with
+    | [] => []
+    | _ =>
+      let '(ln1, loc) := ex_loc ln in
+      let '(ln2, cmd) := ex_cmd ln1 in
+      let idx := ex_idx cmd in
+      let abbr := match idx with Some a => a | None => str [117;110;107;110;111;119;110]%N end in
+      let '(ln3, arg) := ex_arg ln2 abbr in
+      let '(ln4, txt, s1) := ex_txt ln3 abbr s in
+      let '(s2, ret2) :=
+        match idx with
+        | None => (if is_other cmd then flag s1 F_UNSUP else emit s1 (OMsg M_UNKNOWN), ret)
+        | Some a =>
+          if (hd0 a =? 103)%N || (hd0 a =? 118)%N then ec_glob rvalid rfind (ex_exec rvalid rfind filter readfile curpath f 0) f loc cmd arg s1
+          else if (hd0 a =? 64)%N then ec_at rvalid rfind (ex_exec rvalid rfind filter readfile curpath f 0) loc arg s1
+          else ex_simple rvalid rfind filter readfile curpath a loc cmd arg txt s1
+        end in
+      s2 :: ex_exec_tr f ret2 ln4 s2
+    end
+  end.
+
+Fixpoint ref_exec_tr (fuel : nat) (ret : Z) (ln : bytes) (r : rst) : option (list rst) :=
+  match fuel with
+  | O => None
+  | S f =>
+    match ln with
+    | [] => Some []
+    | _ =>
+      let '(ln1, loc) := ex_loc ln in
+      let '(ln2, cmd) := ex_cmd ln1 in
+      let idx := ex_idx cmd in
+      let abbr := match idx with Some a => a | None => str [117;110;107;110;111;119;110]%N end in
+      let '(ln3, arg) := ex_arg ln2 abbr in
+      let '(ln4, txt, r1) := ref_txt ln3 abbr r in
+      match (match idx with
+             | None => if is_other cmd then None else Some (r_emit r1 [OMsg M_UNKNOWN], ret)
+             | Some a =>
+               if (hd0 a =? 103)%N || (hd0 a =? 118)%N then None
+               else if (hd0 a =? 64)%N then ref_at_cmd rvalid rfind (ref_exec rvalid rfind filter readfile curpath f 0) loc arg r1
+               else ref_simple rvalid rfind filter readfile curpath a loc cmd arg txt r1
+             end) with
+      | None => None
+      | Some (r2, ret2) => match ref_exec_tr f ret2 ln4 r2 with Some t => Some (r2 :: t) | None => None end
+      end
+    end
+  end.
+
+Fixpoint ex_main_tr (n fuel : nat) (s : st) : list st :=
+  match n with
+  | O => []
+  | S n' =>
+    if xquit s then []
+    else match inp s with
+         | [] => []
+         | ln :: rest =>
+           let s1 := fst (ex_command rvalid rfind filter readfile curpath fuel ln (set_inp s rest)) in
+           ex_exec_tr fuel 0 ln (set_inp s rest) ++ ex_main_tr n' fuel (set_regs s1 (reg_put (regs s1) 58 ln))
+         end
+  end.
+
+Fixpoint ref_main_tr (n fuel : nat) (r : rst) : option (list rst) :=
+  match n with
+  | O => None
+  | S n' =>
+    if r_quit r then Some []
+    else match r_inp r with
+         | [] => Some []
+         | ln :: rest =>
+           match ref_exec rvalid rfind filter readfile curpath fuel 0 ln (r_inp_set r rest), ref_exec_tr fuel 0 ln (r_inp_set r rest) with
+           | Some (r1, _), Some t =>
+             match ref_main_tr n' fuel (r_regs_set r1 (reg_put (r_regs r1) 58 ln)) with Some t' => Some (t ++ t') | None => None end
+           | _, _ => None
+           end
+         end
+  end.
+End Traces.
